@@ -108,6 +108,7 @@ class VClock:
         self.swallowed.records = []
         self.now = self.START if start is None else start
         self.steps = 0
+        self.settle_extra = 0.0
         return leftover
 
     # ------------------------------------------------------------------
@@ -153,6 +154,15 @@ class VClock:
             if nd is not None and nd <= self.now:
                 continue
             break
+        extra = getattr(self, "settle_extra", 0.0)
+        if extra:
+            # a wire with latency: 'settled' means the exchanges started now have had the time to finish
+            self.settle_extra = 0.0
+            try:
+                self.drive(duration=extra, max_steps=max_steps)
+                self.settle(max_steps)
+            finally:
+                self.settle_extra = extra
 
     def run_until_idle(self, horizon, max_steps=200000):
         """drive until nothing is scheduled or horizon seconds passed;
